@@ -23,9 +23,10 @@ VARIABLES
     typeOf,    \* instance id -> type ("" = unused)
     ninst, nops,
     closed,    \* "" or the exception value the channel was closed with
+    pcancel,   \* the parent of the channel context has been cancelled (the channel itself is still open)
     last       \* observable result of the last operation
 
-vars == <<hs, typeOf, ninst, nops, closed, last>>
+vars == <<hs, typeOf, ninst, nops, closed, pcancel, last>>
 
 Size == Len(hs) + 2
 \* interfaces at pipeline index i (0 = head, Size-1 = tail)
@@ -36,7 +37,7 @@ NoRes == [op |-> "none"]
 
 Init ==
     /\ hs = <<>> /\ typeOf = [i \in 1..MaxInst |-> ""] /\ ninst = 0 /\ nops = 0
-    /\ closed = "" /\ last = NoRes
+    /\ closed = "" /\ pcancel = FALSE /\ last = NoRes
 
 -----------------------------------------------------------------------------
 (* building *)
@@ -75,7 +76,7 @@ Built(name, pos, refs, newhs) ==
     /\ ninst' = ninst + NewCount(refs)
     /\ nops' = nops + 1
     /\ last' = [op |-> name, pos |-> pos, order |-> newhs, size |-> Len(newhs) + 2]
-    /\ UNCHANGED closed
+    /\ UNCHANGED <<closed, pcancel>>
 
 \* AddFirst inserts its arguments one by one at the front
 AddFirst(refs) ==
@@ -94,7 +95,7 @@ AddHandler(pos, refs) ==
     /\ IF pos >= Size
        THEN /\ last' = [op |-> "AddHandler", pos |-> pos, rejected |-> TRUE]
             /\ nops' = nops + 1
-            /\ UNCHANGED <<hs, typeOf, ninst, closed>>
+            /\ UNCHANGED <<hs, typeOf, ninst, closed, pcancel>>
        ELSE IF pos = -1 \/ pos = Size - 1
             THEN Built("AddHandler", pos, refs, hs \o Resolve(refs, ninst))
             ELSE Built("AddHandler", pos, refs, InsertAfter(hs, pos, Resolve(refs, ninst)))
@@ -112,6 +113,15 @@ Query(x) ==
                 first |-> IF Matches(x) = {} THEN -1 ELSE Min(Matches(x)),
                 lastidx |-> IF Matches(x) = {} THEN -1 ELSE Max(Matches(x)),
                 order |-> hs]
+    /\ nops' = nops + 1
+    /\ UNCHANGED <<hs, typeOf, ninst, closed, pcancel>>
+
+\* environment: the parent context is cancelled (bootstrap shutdown) while the read loop is parked in
+\* Read: the channel is still open, and panics are contained exactly as before
+PCancel ==
+    /\ WithPanics /\ nops < MaxOps /\ ~pcancel /\ closed = ""
+    /\ pcancel' = TRUE
+    /\ last' = [op |-> "PCancel"]
     /\ nops' = nops + 1
     /\ UNCHANGED <<hs, typeOf, ninst, closed>>
 
@@ -167,7 +177,7 @@ Fire(k, entry, from, stop, pan, pv) ==
                       closed |-> closedBy, escaped |-> FALSE]
           /\ closed' = closedBy
     /\ nops' = nops + 1
-    /\ UNCHANGED <<hs, typeOf, ninst>>
+    /\ UNCHANGED <<hs, typeOf, ninst, pcancel>>
 
 -----------------------------------------------------------------------------
 RefSeqs == UNION {[1..n -> Refs] : n \in 1..MaxPerOp}
@@ -175,6 +185,7 @@ RefSeqs == UNION {[1..n -> Refs] : n \in 1..MaxPerOp}
 Next ==
     \/ \E refs \in RefSeqs : AddFirst(refs) \/ AddLast(refs) \/ \E pos \in -1..(MaxInst + 2) : AddHandler(pos, refs)
     \/ \E x \in 1..MaxInst : Query(x)
+    \/ PCancel
     \/ \E k \in Kinds, entry \in {"pl", "ch", "ctx", "loop"}, from \in 0..(MaxInst + 1), stop \in SUBSET (1..MaxInst),
           pan \in 0..MaxInst, pv \in PVals : Fire(k, entry, from, stop, pan, pv)
 
